@@ -28,6 +28,7 @@ EXPLANATION = (
   ' (STATE-share) no assignment stores a container field of one object (a field the package updates in place) into a field of another object without copying it, so an in-place update of one object never changes another;'
   " (ITEM-source) an object built once per item of an inner loop is filled only with values that derive from that item or do not vary with the loops, never with a value of the enclosing container standing where the item's own belongs;"
   ' (LOOP-break) no loop over the items of a collection is left by a branch that does nothing but `break` on a test about the item (end-of-input sentinels, flags set in the loop body and searches whose variable is read afterwards excepted): an item that is to be skipped does not end the processing of the items after it;'
+  ' (FIN-mergekey) the key under which a region is retained, interpreted on sample regions, is equal for begin unset / begin 0 and different when begin, end, writing mode or alignment differ;'
 )
 RULE_TEXT = "per live loop, per (target kind, property), per external compute() call, per get_body() use, per range test"
 UNDECIDED = ["the text visible at every time is preserved", "idempotence", "merged regions are equivalent (timing, writing mode, alignment as values)",
@@ -276,6 +277,57 @@ def check_repoint_order(ctx):
       raise AnalysisError(f"_replace_regions could not be interpreted on the sample tree ({ex}) and is not the plain recursive form")
 
 
+def check_merge_key(ctx):
+  """FIN-mergekey: regions are merged when they are active over the same interval with the same writing mode and alignment.  The
+  key under which the filter retains a region, interpreted for sample regions: equal for begin unset / begin 0 (the same interval),
+  different when the begin, the end (bounded vs unbounded, or two bounds), the writing mode or the alignment differ."""
+  from fractions import Fraction as F
+  from ..consteval import NotConst as _NC, Raised as _R
+  from ..rules import match as _mt
+  from ..rules.minieval import MiniEval, Node
+  ix = ctx.ix
+  f = ix.func("ttconv.filters.doc.lcd:LCDDocFilter.process")
+  key = None
+  for c in own_nodes(f.node):
+    if isinstance(c, ast.Call) and isinstance(c.func, ast.Attribute) and c.func.attr == "get" and len(c.args) == 1 and isinstance(c.args[0], ast.Name):
+      stores = [st for st in own_nodes(f.node) if isinstance(st, ast.Assign) and any(isinstance(t, ast.Subscript) and unparse(t.value) == unparse(c.func.value) and unparse(t.slice) == c.args[0].id for t in st.targets)]
+      if stores:
+        key = c.args[0].id
+  defs_ = _mt.local_defs(f.node).get(key, []) if key else []
+  if len(defs_) != 1:
+    raise AnalysisError("LCDDocFilter.process: the key under which regions are retained was not found")
+  expr = defs_[0]
+  free = sorted({x.id for x in ast.walk(expr) if isinstance(x, ast.Name)})
+  loopvar = next((unparse(lp.target) for lp in own_nodes(f.node) if isinstance(lp, ast.For) and "iter_regions()" in unparse(lp.iter) and any(x is expr for x in ast.walk(lp))), None)
+  if loopvar is None or loopvar not in free:
+    raise AnalysisError("LCDDocFilter.process: the retained-region key does not read the region of the loop")
+
+  def k(begin, end, **other):
+    env = {n_: f"<{n_}>" for n_ in free}
+    env.update(other)
+    env[loopvar] = Node("Region", "r", (), begin=begin, end=end)
+    return MiniEval(ix).ev(expr, env, f, 0)
+  others = [n_ for n_ in free if n_ != loopvar]
+  try:
+    problems = []
+    if k(None, F(5)) != k(F(0), F(5)):
+      problems.append("a region without begin and a region with begin 0 (the same interval) get different keys and are not merged")
+    if k(F(0), F(5)) == k(F(1), F(5)):
+      problems.append("regions that begin at 0 and at 1 get the same key")
+    if k(F(0), None) == k(F(0), F(5)) or k(F(0), F(4)) == k(F(0), F(5)):
+      problems.append("regions with different ends get the same key")
+    for o in others:
+      if k(F(0), F(5), **{o: "A"}) == k(F(0), F(5), **{o: "B"}):
+        problems.append(f"regions that differ in `{o}` get the same key")
+  except _R:
+    problems = ["the key expression raises on a sample region"]
+  except _NC as ex:
+    raise AnalysisError(f"LCDDocFilter.process: the retained-region key leaves the interpreted subset ({ex})")
+  ctx.check(not problems, "FIN-mergekey", f"{f.qualname}|regions are merged exactly when interval, writing mode and alignment agree", ctx.where(f.module, expr),
+            f"key `{short(expr, 70)}`: equal for begin None / 0, different for different begins, ends, {', '.join(others)}",
+            "; ".join(problems) + ": regions that are equivalent are kept apart, or regions that differ are merged into one")
+
+
 def run(ctx):
   ix = ctx.ix
   _INDEX[:] = [ix]
@@ -307,6 +359,7 @@ def run(ctx):
                 f"`{short(c, 70)}` passes doc.get_body() without a None guard: a document without body fails with TypeError / AttributeError")
   ctx.floor("NUL", "uses of get_body() in the LCD filter", nt + k, 3)
   check_repoint_order(ctx)
+  check_merge_key(ctx)
   lint.unsat_ranges(ctx, common.scope(ctx, MODS), rule="LINT-c")
   check_safe_area_range(ctx)
   fs_lcd = common.funcs(ctx, MODS)
